@@ -933,7 +933,7 @@ func c07errChannel(c *Ctx, p *Prog) {
 				if cm == nil || cm.Op != token.LSS || cm.LC != 0 || cm.RC != 0 {
 					return false
 				}
-				_, path, okp := deepStrip(cm.L).FieldPath()
+				_, path, okp := p.upParam(deepStrip(cm.L), 0).FieldPath() // (may be handed to a pure helper: calcVacantsQuantity(dsc.opts.HandlersQuantity, dsc.actual))
 				return okp && path[len(path)-1] == "HandlersQuantity" && deepStrip(cm.R).Op != "const"
 			})
 			r.Check(okGuard, "E6", fmt.Sprintf("%s#overrun-guard.%d", p.FnKey(fn), k), p.InstrPos(ret), "ErrQuantityExceeded only under HandlersQuantity < in-flight total",
